@@ -74,7 +74,8 @@ def token_table(R):
             for w in (fa.worlds_at(i) or []):
                 names, star = _variants_of_world(fa, w)
                 specific = [n for n in names if n not in ("Keyword", "Ok", "Err", "Some", "None", "Continue", "Break")]
-                if specific and not star:
+                if specific:
+                    # (negative facts in the same world are only the alternatives an earlier guard arm ruled out on the way)
                     for n in specific:
                         res[n] = val
                 elif star or not specific:
